@@ -522,6 +522,25 @@ class Splicer:
             if not first.startswith(GHOST_PREFIXES):
                 raise SpliceError("%s: %s inserts non-ghost text: %r" % (key, what, first[:60]))
 
+        # `#if_local(NAME) text`: the line is kept only while the function still has a local / parameter called NAME
+        # (a clause that ties a ghost variable to a program variable must not make the file uncompilable when a change
+        # removes that variable; the dropped line is logged)
+        real_idents = {t.text for t in toks if t.kind == "ident"}
+        guarded = []
+        for (name, args, slines, sline_no) in sections:
+            out = []
+            for l in slines:
+                gm = re.match(r"(\s*)#if_local\((\w+)\)\s?(.*)$", l)
+                if gm:
+                    if gm.group(2) in real_idents:
+                        out.append(gm.group(1) + gm.group(3))
+                    else:
+                        out.append(gm.group(1) + "// (dropped: local `%s` no longer exists)" % gm.group(2))
+                        self.log.append("%s: clause dropped, local `%s` no longer exists: %s" % (key, gm.group(2), gm.group(3)[:80]))
+                else:
+                    out.append(l)
+            guarded.append((name, args, out, sline_no))
+        sections = guarded
         for (name, args, slines, sline_no) in sections:
             meta = dict(tmpl=(tmpl_file, sline_no))
             block = "\n".join(slines)
@@ -851,6 +870,7 @@ class Splicer:
     # ---- template driver
     def run(self):
         files = sorted(f for f in os.listdir(self.cdir) if f.endswith(".rs"))
+        cur_lemma, lem_label, lem_tags = None, None, ()
         for f in files:
             path = os.path.join(self.cdir, f)
             self.defaults = {}
@@ -897,7 +917,22 @@ class Splicer:
                 elif s.startswith("//@"):
                     raise SpliceError("%s:%d: unknown directive %s" % (f, i + 1, s))
                 else:
-                    self.lines.append(Line(ln, tmpl=(f, i + 1)))
+                    # contract text outside //@fn: lemmas and spec functions.  A labelled clause `[Cxx|label] ..` of a lemma is an
+                    # obligation of the listed properties; the label stays in force until the next clause keyword or label.
+                    m = re.search(r"\bproof fn (\w+)", ln)
+                    if m:
+                        cur_lemma, lem_label, lem_tags = m.group(1), None, ()
+                    lm = LABEL_RE.match(ln)
+                    if lm:
+                        lem_tags = tuple(lm.group(2).split(","))
+                        lem_label = lm.group(3).strip()
+                        ln = lm.group(1) + ln[lm.end():]
+                    elif re.match(r"\s*(requires|ensures|decreases|recommends)\b", ln) or re.match(r"\s*\{", ln):
+                        lem_label, lem_tags = None, ()
+                    if lem_label:
+                        self.lines.append(Line(ln, tmpl=(f, i + 1), fn="lemma:" + str(cur_lemma), label=lem_label, tags=lem_tags))
+                    else:
+                        self.lines.append(Line(ln, tmpl=(f, i + 1)))
                     i += 1
         return self
 
